@@ -272,6 +272,14 @@ func genC02Remote(t *rapid.T) *c02Case {
 	nInj := rapid.IntRange(1, 3).Draw(t, "ninject")
 	for i := 0; i < nInj; i++ {
 		ref := jv.ObjV(jv.Member{K: "$ref", V: jv.StrV(spell(targets[rapid.IntRange(0, len(targets)-1).Draw(t, "tg")]))})
+		if rapid.IntRange(0, 2).Draw(t, "idbeside") == 0 {
+			// draft-07: "$id" beside "$ref" is ignored like every other sibling, so it must not
+			// change the base URI the reference is resolved against.
+			ref.Set("$id", jv.StrV(rapid.SampledFrom([]string{"http://elsewhere.test/dir/x.json", "other/dir/y.json", "http://x.test/sub/z.json"}).Draw(t, "besideid")))
+			if rapid.Bool().Draw(t, "besidekw") {
+				ref.Set("type", jv.StrV("null"))
+			}
+		}
 		switch rapid.IntRange(0, 4).Draw(t, "where") {
 		case 0: // root-level $ref (siblings are then ignored in draft-07)
 			if rapid.IntRange(0, 2).Draw(t, "rootref") == 0 {
